@@ -92,7 +92,57 @@ def desc_ok(d):
 
 
 # ---------------------------------------------------------------------------------------------- the provider
-def build_app():
+class DjangoGlueClient:
+    """Stands where the Flask test client stands: the same requests, handed as real Django HttpRequests to a
+    django_oauth2.AuthorizationServer (its own create_oauth2_request / create_json_request / handle_response / signals /
+    token-generator configuration; only the two look-ups that would need database models are replaced).  What Django's own
+    request handling refuses before a view would see it (an undecodable body, a bad multipart boundary) is Django's 400."""
+
+    def __init__(self, server):
+        self.server = server
+
+    def open(self, path, method="GET", headers=None, base_url=None, query_string=None, data=None, content_type=None):
+        import urllib.parse as up
+        from django.core.exceptions import BadRequest, SuspiciousOperation
+        from django.http import HttpResponse
+        from django.http.multipartparser import MultiPartParserError
+        from django.http.request import UnreadablePostError
+        from django.test import RequestFactory
+        qs = query_string if isinstance(query_string, str) else up.urlencode(query_string or {}, doseq=True)
+        if isinstance(data, dict):
+            body, ct = up.urlencode(data, doseq=True).encode("ascii"), content_type or "application/x-www-form-urlencoded"
+        elif data is None:
+            body, ct = b"", content_type or ""
+        else:
+            body, ct = (data if isinstance(data, bytes) else data.encode("utf-8", "surrogatepass")), content_type or "application/x-www-form-urlencoded"
+        extra = {"HTTP_" + k.upper().replace("-", "_"): v for k, v in (headers or {}).items()}
+        extra.update(HTTP_HOST="as.example", QUERY_STRING=qs)
+        req = RequestFactory().generic(method, path, data=body, content_type=ct, secure=True, **extra)
+        srv = self.server
+        try:
+            if path == "/authorize":
+                uid = req.headers.get("X-User")
+                resp = srv.create_authorization_response(req, grant_user=S.User(uid) if uid else None)
+            elif path == "/token":
+                resp = srv.create_token_response(req)
+            else:
+                name = {"/revoke": "revocation", "/introspect": "introspection", "/device": "device_authorization",
+                        "/register": "client_registration"}.get(path, "client_configuration")
+                resp = srv.create_endpoint_response(name, req)
+        except (BadRequest, SuspiciousOperation, MultiPartParserError, UnreadablePostError):
+            resp = HttpResponse(b'{"error": "invalid_request"}', status=400, content_type="application/json")
+
+        class R:
+            status_code = resp.status_code
+            headers = resp.headers
+
+            @staticmethod
+            def get_data(as_text=False):
+                return resp.content.decode("utf-8", "replace") if as_text else resp.content
+        return R
+
+
+def build_app(glue="flask"):
     store = S.Store()
     store.clients = {
         "c1": S.Client("c1", "s1", ["https://c1.example/cb"], "a b openid", ["authorization_code", "refresh_token", "password", "client_credentials",
@@ -108,7 +158,21 @@ def build_app():
         uid = request.user.get_user_id() if request.user else None
         store.tokens.append(S.Token(request.client.client_id, uid, **token))
 
-    server = AuthorizationServer(app, query_client=lambda cid: store.clients.get(cid), save_token=save_token)
+    if glue == "django":
+        from impl.client_apps import _django_setup
+        _django_setup()
+        from authlib.integrations.django_oauth2 import AuthorizationServer as DjangoAuthorizationServer
+
+        class DjServer(DjangoAuthorizationServer):
+            def query_client(self, client_id):
+                return store.clients.get(client_id)
+
+            def save_token(self, token, request):
+                return save_token(token, request)
+
+        server = DjServer(None, None)
+    else:
+        server = AuthorizationServer(app, query_client=lambda cid: store.clients.get(cid), save_token=save_token)
     g = S.make_grants(store, {"alice": "pw"})
     from authlib.oidc.core import grants as oidc_grants
     from authlib.oidc.core.grants import OpenIDCode
@@ -281,6 +345,8 @@ def build_app():
 
     require = ResourceProtector()
     require.register_token_validator(V())
+    if glue == "django":
+        return DjangoGlueClient(server), store
 
     @app.route("/authorize", methods=["GET", "POST"])
     def authorize():
@@ -498,14 +564,18 @@ def classify(ctx, endpoint, resp, case):
     return "ok"
 
 
-def run_endpoints(ctx):
+def run_endpoints(ctx, glue="flask"):
     rng = ctx.rng
-    app, store = build_app()
-    client = app.test_client()
+    app, store = build_app(glue)
+    client = app.test_client() if glue == "flask" else app
+    tag = "" if glue == "flask" else glue + ":"
     # seed a token, a refresh token, a code and a device code so that the valid base requests succeed
     store.tokens.append(S.Token("c1", "alice", token_type="Bearer", access_token="AT", refresh_token="RT", scope="a", expires_in=3600))
     quick = ctx.tier == "quick"
     for ep, (method, path, params, headers, placement) in BASE.items():
+        if glue != "flask" and path.startswith("/api"):
+            continue          # (the resource protectors are exercised through the Flask decorator)
+
         def fresh():
             store.codes["CODE"] = S.Code("CODE", "c1", "https://c1.example/cb", "a", "alice", code_challenge="E9Melhoa2OwvFrEMTJguCHaoeK1t8URWbuGJSstw-cM",
                                          code_challenge_method="S256")
@@ -536,6 +606,11 @@ def run_endpoints(ctx):
                     p = dict(params)
                     p[name] = v
                     variants.append(("retyped:%s" % name, p, dict(headers), None, None, None))
+                # text only JSON can carry: unpaired surrogates (the escapes \ud83d, \udc00 are valid JSON), which no UTF-8 response can hold
+                for v in ("\ud83d", "a\udc00b", "\udbff\udbff"):
+                    p = dict(params)
+                    p[name] = [v] if isinstance(params.get(name), list) else v
+                    variants.append(("json-text:%s" % name, p, dict(headers), None, None, None))
         # pairs (thorough) or a sample of pairs
         pairs = list(itertools.combinations(list(params), 2))
         for a, b in (pairs if not quick else rng.sample(pairs, min(3, len(pairs)))):
@@ -582,17 +657,17 @@ def run_endpoints(ctx):
                 variants.append(("jwt:" + lab.split(":")[0], p, hd, None, None, None))
         for lab, p, hd, rq, rb, ct in variants:
             fresh()
-            case = {"endpoint": ep, "variant": lab, "params": p, "headers": hd, "raw_query": rq, "raw_body": rb, "content_type": ct}
-            ctx.case(case, json.dumps(case, default=repr, sort_keys=True), "endpoint:%s:%s" % (ep, lab.split(":")[0]))
+            case = {"endpoint": ep, "variant": lab, "params": p, "headers": hd, "raw_query": rq, "raw_body": rb, "content_type": ct, "glue": glue}
+            ctx.case(case, json.dumps(case, default=repr, sort_keys=True), "endpoint:%s%s:%s" % (tag, ep, lab.split(":")[0]))
             try:
                 resp = send(client, method, path, p, hd, placement, rq, rb, ct)
             except Exception as e:  # noqa: BLE001
-                key = "C20:crash:%s:%s@%s" % (ep, type(e).__name__, site(e))
-                ctx.violation(key, "a request to the %s endpoint ended in an unhandled %s: %s" % (ep, type(e).__name__, str(e)[:120]), case)
-                ctx.count("outcome:%s:crash:%s" % (ep, type(e).__name__))
+                key = "C20:crash:%s%s:%s@%s" % (tag, ep, type(e).__name__, site(e))
+                ctx.violation(key, "a request to the %s endpoint (%s glue) ended in an unhandled %s: %s" % (ep, glue, type(e).__name__, str(e)[:120]), case)
+                ctx.count("outcome:%s%s:crash:%s" % (tag, ep, type(e).__name__))
                 continue
             cls = classify(ctx, ep, resp, case)
-            ctx.count("outcome:%s:%s" % (ep, cls))
+            ctx.count("outcome:%s%s:%s" % (tag, ep, cls))
             if lab == "base" and not (cls.startswith("ok") or (ep == "authorize:denied" and cls == "error:access_denied")):
                 ctx.obligation_broken("base-request:%s" % ep, "the valid base request was refused: %s" % cls)
 
@@ -1255,6 +1330,7 @@ def run(ctx):
                 "serializations with every member at every level removed or retyped (14 values); 5 claim consumers x signed tokens with members removed / retyped; "
                 "model correspondence: 19 modelled functions x pool of 34 JSON values per member; quick tier samples the pools; distinct_nontrivial = distinct inputs")
     run_endpoints(ctx)
+    run_endpoints(ctx, "django")
     run_oauth1(ctx)
     run_oauth1_deep(ctx)
     run_jose(ctx)
